@@ -5,6 +5,7 @@
 //!   vh replay <module> <cases.ndjson>          spec -> impl
 //!   vh drive  <module> --seed S --n N --out F  impl -> spec (records a trace)
 mod builddecode;
+mod caxml;
 mod certchain;
 mod cms;
 mod cmsmsg;
@@ -49,6 +50,8 @@ fn main() {
         ("replay", "manifest") => manifest::replay(rest),
         ("replay", "certchain") => certchain::replay(rest),
         ("replay", "builddecode") => builddecode::replay(rest),
+        ("replay", "caxml") => caxml::replay(rest),
+        ("drive", "caxml") => caxml::drive(rest),
         ("replay", "sigobj") => sigobj::replay(rest),
         ("replay", "cmsmsg") => cmsmsg::replay(rest),
         ("drive", "cmsmsg") => cmsmsg::drive(rest),
